@@ -214,6 +214,7 @@ func propC18() Property {
 			{ID: "C18-R4", Desc: "wall-clock components are read in the configured zone", Min: 6, Run: c18R4},
 			{ID: "C18-R5", Desc: "no decision arm of the schedule code is dead by contradiction", Min: 10, Run: c18R5},
 			{ID: "C18-R6", Desc: "start/end time comparisons have one polarity (start < end)", Min: 2, Run: c18R6},
+			{ID: "C18-R12", Desc: "the same-window test of the creation time does not depend on the order of the instants", Min: 1, Run: c18R12},
 			{ID: "C18-R11", Desc: "weekly day counts equal the distance to the next end day for every weekday pair", Min: 2, Run: c18R11},
 			{ID: "C18-R10", Desc: "weekday membership does not depend on the order of the list", Min: 1, Run: c18R10},
 			{ID: "C18-R9", Desc: "configured times of day are compared with the wall clock of the instant", Min: 4, Run: c18R9},
